@@ -36,6 +36,7 @@ def stable_hash(obj):
 
 class Part(object):
     """What one work unit (possibly in a worker process) found. Plain data, picklable."""
+    leftover = ()
 
     def __init__(self):
         self.counters = collections.Counter()
@@ -97,18 +98,23 @@ class Ctx(Part):
         self.rng.shuffle(seq)
         return seq
 
-    def pmap(self, func, units, chunksize=1, jobs=None):
+    def pmap(self, func, units, chunksize=1, jobs=None, collect=None):
         """Run func(unit) -> Part for each unit on a fork pool, merge in unit order."""
         units = list(units)
         jobs = jobs or NCPU
         if jobs <= 1 or len(units) <= 1:
             for u in units:
-                self.merge(_guard(func, u))
+                part = _guard(func, u)
+                if collect:
+                    collect(part)
+                self.merge(part)
             return
         with multiprocessing.get_context('fork').Pool(jobs) as pool:
             for part in pool.imap(_Guarded(func), units, chunksize):
                 if isinstance(part, _WorkerFailure):
                     raise HarnessError('worker failed:\n' + part.tb)
+                if collect:
+                    collect(part)
                 self.merge(part)
 
 
